@@ -23,6 +23,7 @@ fn main() {
         "c04" => drivers::c04::drive(&rest),
         "c05" => drivers::c05::drive(&rest),
         "c06" => drivers::c06::drive(&rest),
+        "c09" => drivers::c09::drive(&rest),
         "c11" => drivers::c11::drive(&rest),
         "c14" => drivers::c14::drive(&rest),
         "pipe" => drivers::pipe::drive(&rest),
